@@ -409,7 +409,7 @@ func cmacKeys(size int) [][]byte {
 	return [][]byte{seen[[2]bool{false, false}], seen[[2]bool{false, true}], seen[[2]bool{true, false}], seen[[2]bool{true, true}]}
 }
 
-// salts: index 0 nil, 1 empty, 2 one byte, 3 hLen bytes, 4 block size + 1 bytes (longer than the HMAC block: hashed key), 5 200 bytes
+// salts: index 0 nil, 1 empty, 2 one byte, 3 hLen bytes, 4 block size + 1 bytes (longer than the HMAC block: hashed key), 5 200 bytes, 6.. zero shapes
 func saltOf(i int, hash string) []byte {
 	switch i {
 	case 0:
@@ -422,11 +422,26 @@ func saltOf(i int, hash string) []byte {
 		return ref.KeyBytes("salt-hlen", digest[hash])
 	case 4:
 		return ref.KeyBytes("salt-block+1", blockSize[hash]+1)
+	case 5:
+		return ref.KeyBytes("salt-200", 200)
+	// all-zero salts: up to the HMAC block size they equal the RFC 5869 default (HMAC zero-pads its key), beyond
+	// it they do not (the key is hashed first) - no layer may normalise them away
+	case 6:
+		return make([]byte, digest[hash])
+	case 7:
+		return make([]byte, blockSize[hash])
+	case 8:
+		return make([]byte, blockSize[hash]+1)
+	case 9:
+		return make([]byte, 200)
 	}
-	return ref.KeyBytes("salt-200", 200)
+	// leading and trailing zero bytes around one non-zero byte
+	b := make([]byte, blockSize[hash]+9)
+	b[blockSize[hash]] = 0x80
+	return b
 }
 
-var saltNames = []string{"nil", "empty", "1", "hLen", "block+1", "200"}
+var saltNames = []string{"nil", "empty", "1", "hLen", "block+1", "200", "zeros-hLen", "zeros-block", "zeros-block+1", "zeros-200", "zeros-0x80-zeros"}
 
 func hkdfSection(x *h.X) {
 	path := h.Pick(x, "path", paths)
@@ -438,7 +453,7 @@ func hkdfSection(x *h.X) {
 	}
 	hash := h.Pick(x, "hash", hs)
 	ksize := h.Pick(x, "keysize", ks)
-	si := x.Choose("salt", 5)
+	si := x.Choose("salt", len(saltNames))
 	x.Label(saltNames[si])
 	salt := saltOf(si, hash)
 	// mode 0: lattice of output lengths on every input length; mode k>0: every output length on one input length
@@ -544,7 +559,7 @@ func infoOf(i int) []byte {
 }
 
 var infoNames = []string{"nil", "empty", "1", "2", "3", "100"}
-var chSalts = []int{0, 1, 2, 3, 5} // nil, empty, 1, hLen, 200
+var chSalts = []int{0, 1, 2, 3, 5, 7, 8} // nil, empty, 1, hLen, 200, zeros-block, zeros-block+1
 
 func computeHKDFSection(x *h.X) {
 	hash := h.Pick(x, "hash", hashes)
